@@ -1,11 +1,12 @@
 CONSTANTS
-  Impl = "asis"
+  Impl = "current"
   ReadImpl = "intended"
-  EofWithData = FALSE
-  MaxNalLen = 2
-  MaxChunk = 2
+  EofWithData = TRUE
+  MaxNalLen = 3
+  MaxChunk = 3
   HdrSyms = {"S", "H", "Z", "O"}
   BodySyms = {"Z", "O", "F", "S"}
 SPECIFICATION Spec
 INVARIANTS TypeOK Exact
+PROPERTIES Terminates
 CHECK_DEADLOCK FALSE
